@@ -80,6 +80,8 @@ const FILES: &[&str] = &[
     "e.js",
     "/app/src/n\u{e4}me \u{fc}.js",
     "/app/issue#12/what?.js",
+    "/app/src/gen\\util.js",
+    "file:///app/src/m.mjs",
 ];
 
 fn dir_of(f: &str) -> String {
